@@ -139,7 +139,14 @@ func genGram(r *Rng, tier string) Case {
 				if n > 127 {
 					tags["payload>127"] = true
 				}
-				evs = append(evs, fmt.Sprintf("m.%s.%s.%d.%s", d, gvlq(r, uint32(n)), typ, hx(r.Bytes(n))))
+				payload := r.Bytes(n)
+				if r.Chance(1, 3) {
+					// an event of the exact size its type prescribes, with special values (tempo 0, repeated tempi ...)
+					cm := canonicalMeta(r)
+					typ, n, payload = int(cm[1]), int(cm[2]), cm[3:]
+					tags["canonical-meta"] = true
+				}
+				evs = append(evs, fmt.Sprintf("m.%s.%s.%d.%s", d, gvlq(r, uint32(n)), typ, hx(payload)))
 				rs = 0
 			default:
 				lead := 0xF0
